@@ -2,45 +2,59 @@
 (***************************************************************************)
 (* C16.  The directory lock (db.go Open / Close with gofrs/flock on        *)
 (* <dir>/.lock): openers are (process, goroutine) pairs; an Open first     *)
-(* tries the lock (non-blocking), then loads the directory, which fails    *)
-(* if the directory is corrupt - and must then release the lock.           *)
+(* tries the lock (non-blocking), then loads the directory in three        *)
+(* phases, each of which can fail - and must then release the lock:        *)
+(*   names  loadMergeFiles / loadDataFiles list the directory (a stray     *)
+(*          file name fails here, before any data file is open and before  *)
+(*          an active file exists)                                         *)
+(*   files  the data files are opened one by one (some are already open    *)
+(*          when one cannot be opened)                                     *)
+(*   index  hint file and data files are read (a damaged record fails      *)
+(*          here, with every file open and the active file set)            *)
 (* Bug "OpenLeaksLock" reproduces the pinned tree (a failed Open kept the  *)
-(* lock for the life of the process).                                      *)
+(* lock for the life of the process); Bug "EarlyFailLeaksLock" is a        *)
+(* release that is only reached once an active file exists.                *)
 (***************************************************************************)
 EXTENDS Integers, FiniteSets, TLC
 CONSTANTS Openers, MaxSteps, Bug
-VARIABLES st,       \* opener -> "closed" | "loading" | "open"
+Phases == <<"names", "files", "index">>
+Kinds == {"no", "names", "files", "index"}     \* where loading the directory fails ("no": it loads)
+VARIABLES st,       \* opener -> "closed" | "names" | "files" | "index" | "open"
           holder,   \* the opener holding the lock, or "none"
-          corrupt,  \* the directory cannot be loaded
+          corrupt,  \* the phase in which the directory cannot be loaded, or "no"
           last,     \* opener -> result of its last Open attempt
           steps
 vars == <<st, holder, corrupt, last, steps>>
-Init == /\ st = [o \in Openers |-> "closed"] /\ holder = "none" /\ corrupt \in BOOLEAN
+Init == /\ st = [o \in Openers |-> "closed"] /\ holder = "none" /\ corrupt \in Kinds
         /\ last = [o \in Openers |-> "-"] /\ steps = 0
 Tick == steps < MaxSteps /\ steps' = steps + 1
 \* Open, step 1: TryLock
 TryOpen(o) == /\ Tick /\ st[o] = "closed"
               /\ IF holder = "none"
-                 THEN holder' = o /\ st' = [st EXCEPT ![o] = "loading"] /\ UNCHANGED last
+                 THEN holder' = o /\ st' = [st EXCEPT ![o] = "names"] /\ UNCHANGED last
                  ELSE last' = [last EXCEPT ![o] = "inuse"] /\ UNCHANGED <<holder, st>>
               /\ UNCHANGED corrupt
-\* Open, step 2: load the directory
-Load(o) == /\ Tick /\ st[o] = "loading"
-           /\ IF corrupt
+\* Open, steps 2-4: one loading phase
+NextPhase(p) == IF p = "names" THEN "files" ELSE IF p = "files" THEN "index" ELSE "open"
+Leaks(p) == "OpenLeaksLock" \in Bug \/ ("EarlyFailLeaksLock" \in Bug /\ p \in {"names", "files"})
+Load(o) == /\ Tick /\ st[o] \in {"names", "files", "index"}
+           /\ IF corrupt = st[o]
               THEN /\ st' = [st EXCEPT ![o] = "closed"] /\ last' = [last EXCEPT ![o] = "error"]
-                   /\ holder' = IF "OpenLeaksLock" \in Bug THEN holder ELSE "none"
-              ELSE st' = [st EXCEPT ![o] = "open"] /\ last' = [last EXCEPT ![o] = "ok"] /\ UNCHANGED holder
+                   /\ holder' = IF Leaks(st[o]) THEN holder ELSE "none"
+              ELSE /\ st' = [st EXCEPT ![o] = NextPhase(st[o])]
+                   /\ last' = IF NextPhase(st[o]) = "open" THEN [last EXCEPT ![o] = "ok"] ELSE last
+                   /\ UNCHANGED holder
            /\ UNCHANGED corrupt
 Close(o) == /\ Tick /\ st[o] = "open" /\ st' = [st EXCEPT ![o] = "closed"] /\ holder' = "none"
             /\ UNCHANGED <<corrupt, last>>
 \* somebody repairs / damages the directory while nobody has it open
-Flip == /\ Tick /\ holder = "none" /\ corrupt' = ~corrupt /\ UNCHANGED <<st, holder, last>>
+Flip == /\ Tick /\ holder = "none" /\ corrupt' \in Kinds \ {corrupt} /\ UNCHANGED <<st, holder, last>>
 Next == (\E o \in Openers : TryOpen(o) \/ Load(o) \/ Close(o)) \/ Flip
 Spec == Init /\ [][Next]_vars
 
-AtMostOneOpen == Cardinality({o \in Openers : st[o] \in {"open", "loading"}}) <= 1
+AtMostOneOpen == Cardinality({o \in Openers : st[o] # "closed"}) <= 1
 \* the lock is held exactly while somebody is open or opening: so after Close and after a failed Open
 \* the directory can be opened again
 LockReleased == (holder = "none") <=> (\A o \in Openers : st[o] = "closed")
-HolderIsOpener == holder # "none" => st[holder] \in {"open", "loading"}
+HolderIsOpener == holder # "none" => st[holder] # "closed"
 =============================================================================
